@@ -21,7 +21,15 @@ Stream m (harness c12w5.go): clauses of ONE operator family on SEVERAL symbols o
 (`s = "x" or sn = "x" or sn = "xy"`, `i >= 1 and j < 9`, ...) over a 64-row store: every 3-clause sequence of every family in
 ALL groupings, longer chains, random skeletons over walks through the pool; oracle as for n, plus the other groupings of
 the same clauses and the same skeleton over opaque atoms (theorems chain_in_any_grouping, chain_regrouping_irrelevant,
-one_clause_decides)."""
+one_clause_decides).
+Stream e (harness c12w7.go): every valid skeleton over <= 3 atoms (+ a slice of the 4-atom ones, re-spellings, longer chains;
+atoms as symbols / comparisons / constants) through EVERY parsing entry point: ast.Parse (truth table) and zitiql.Parse,
+zitiql.ParseWithDebug(debug=false / true) with a bare and with the ast listener (acceptance), then ast.Parse again (pooled
+parser instances) - a valid skeleton is accepted by all of them (compared, not modelled: the model has one parser).
+Stream q (harness c12w7.go): atoms whose sub-queries nest 2-3 levels (fams -> kids -> toys -> parts, a store-typed symbol
+table with linked sets) at every leaf position; families of filters that the property makes equal - the same operands in
+every order, every grouping, with redundant parentheses, at the top level and inside the middle sub-query - must all be
+accepted and select the same rows (theorems operands_commute, chain_in_any_order, chain_in_any_grouping)."""
 import json
 import os
 import re
@@ -107,6 +115,28 @@ W_KEYS = {"lw": ("C12:whitespace", "white space where the grammar allows it"),
           "r": ("C12:respelling", "letter case of and/or/not and white space")}
 
 
+E_NAMES = ["zitiql.Parse", "zitiql.ParseWithDebug(debug=false)", "zitiql.ParseWithDebug(debug=true)",
+           "zitiql.Parse directly after a ParseWithDebug(debug=true) run", "zitiql.Parse with the ast.NewListener() listener",
+           "zitiql.ParseWithDebug(debug=true) with the ast.NewListener() listener", "ast.Parse against the store"]
+
+
+def entry_report(letters):
+    """(entry points that do not accept, entry points that accept) of an entry-point letter string"""
+    bad = ["%s %s" % (E_NAMES[k], "panics" if ch == "P" else "rejects it") for k, ch in enumerate(letters) if ch != "A"]
+    good = [E_NAMES[k] for k, ch in enumerate(letters) if ch == "A"]
+    return bad, good
+
+
+def q2_relation(m1, m2):
+    """how two members of a q2 family (stream field q2:<family>:<operand order>:<grouping>) differ -> (key, words)"""
+    a, b = m1.split(":"), m2.split(":")
+    if a[2] != b[2]:
+        return "C12:operand-order", "the same operands under the same connectives in another order"
+    if "group" in a[3] or "group" in b[3]:
+        return "C12:chain-regrouping", "the same operands in the same order grouped differently"
+    return "C12:redundant-parens", "the same filter up to redundant parentheses"
+
+
 def shorten(t, n=160):
     return t if len(t) <= n else "%s ... %s [%d characters]" % (t[:n // 2], t[-n // 2:], len(t))
 
@@ -190,6 +220,23 @@ def main(argv):
                 regroup.setdefault(k, []).append((unhex(cf[3]).decode("latin-1"), i.split()[1], case))
     mstats["clause_sequences_in_several_groupings"] = sum(1 for v in regroup.values() if len(v) > 1)
     lstats = dict(cases=0, max_tokens=0, max_leaves=0)
+    estats = dict(cases=0, entry_point_calls=0)
+    qstats = dict(cases=0, families=0, family_members=0, members_with_operands_commuted=0, atoms_nested_2_or_3_levels=0, inside_a_sub_query=0)
+    # stream q2: families of filters that are equal by the property (same operands, any order / grouping / redundant
+    # parentheses): member = (case fields, impl fields, model fields, case line)
+    qfam = {}
+    for case, i, m in zip(cases, impl, modl):
+        if case.startswith("N q2:"):
+            cf = case.split()
+            qfam.setdefault(cf[1].split(":")[1], []).append((cf, i.split(), m.split(), case))
+    qstats["families"] = len(qfam)
+    for fid, members in qfam.items():
+        qstats["family_members"] += len(members)
+        qstats["members_with_operands_commuted"] += sum(1 for mb in members if mb[0][1].split(":")[2] != members[0][0][1].split(":")[2])
+        top_level = [mb for mb in members if mb[0][6] != "A"]
+        if len(set(mb[2][2] for mb in top_level)) > 1:
+            # the generator's claim that the members are equal by the property is not shared by the specification
+            disagreements.append((top_level[0][3], "-", "-", "stream q2: members of family %s have different surface semantics" % fid))
     for case, i, m in zip(cases, impl, modl):
         cf, fi, fm = case.split(), i.split(), m.split()
         if cf[0] == "K":
@@ -243,7 +290,10 @@ def main(argv):
                     sum(b[k] == "1" for b in abits) == 1 for k in range(len(abits[0])))
                 mstats["cases_where_neighbouring_clauses_share_operator_and_literal_on_different_symbols"] += any(
                     same_shape_other_symbol(texts[k], texts[k + 1]) for k in range(len(texts) - 1))
-            nil_false = False
+            if store == "nest":
+                qstats["cases"] += 1
+                qstats["atoms_nested_2_or_3_levels"] += any(t.count("from ") >= 2 for t in texts)
+                qstats["inside_a_sub_query"] += skel == "A" and stream.startswith("q2")
             rep = dict(case=case, impl=i, model=m, store=store, query=query, skeleton=skel,
                        atoms=dict(zip(names, texts)), rows=rowids,
                        atom_values_per_row_as_the_code_answers_for_the_atom_alone=dict(zip(texts, abits)),
@@ -251,11 +301,40 @@ def main(argv):
                        note=("dataset: harness c12w5.go c12mOpen (64 rows; s, sn, su run through the product of x / xy / hello / unset, the other "
                              "field families through the products of their domains; odd rows write explicit nils); bit r = row r selected"
                              if store == "twins" else
+                             "dataset: harness c12w7.go c12qOpen (stores fams -> kids -> toys -> parts linked by fk set symbols; 12 fams, 8 kids, 6 toys, "
+                             "4 parts; the query runs on fams); bit r = row r selected" if store == "nest" else
                              "dataset: harness c12w3.go c12nRows (n0: no field set, n1: explicit nils, h1/h2: partly set); "
                              "bit r = row r selected"))
+            if store == "nest" and stream.startswith("q2:"):
+                # a family of filters that are equal by the property: the first member that is accepted and selects the rows
+                # of its surface semantics is the reference; a member that is not accepted, or selects other rows, fails
+                members = qfam.get(stream.split(":")[1], [])
+                ref = next((mb for mb in members if mb[1][1] == mb[2][2] and mb[3] != case), None)
+                if ref is not None and (ibits != sbits or ibits != ref[1][1]):
+                    rq = unhex(ref[0][3]).decode("latin-1")
+                    key, words = q2_relation(stream, ref[0][1])
+                    where = " (inside the sub-query)" if skel == "A" else ""
+                    if ibits in ("E", "P"):
+                        got = "is rejected" if ibits == "E" else "panics"
+                    else:
+                        got = "selects rows %s" % ibits
+                    c.violation(key, "valid query %r on store %s %s, although %r - %s%s - is accepted and selects exactly the rows of its surface semantics (%s): "
+                                "whether a filter is accepted / what it selects depends on the order, the grouping or redundant parentheses of the operands of and / or" % (
+                                    query, store, got, rq, words, where, ref[1][1]),
+                                dict(rep, case=case + "\n" + ref[3], reference_query=rq, reference_rows=ref[1][1], relation=words,
+                                     family=[dict(query=unhex(mb[0][3]).decode("latin-1"), operand_order=mb[0][1].split(":")[2], grouping=mb[0][1].split(":")[3],
+                                                  result=("rejected" if mb[1][1] == "E" else "panic" if mb[1][1] == "P" else mb[1][1])) for mb in members]))
+                    continue
             if ibits in ("E", "P"):
                 c.violation("C12:valid-query-rejected" if ibits == "E" else "C12:panic",
                             "valid query %r (store %s) %s" % (query, store, "is rejected" if ibits == "E" else "panics"), rep)
+                continue
+            if store == "nest" and len(fi) > 4 and set(fi[4]) != {"A"}:
+                bad, good = entry_report(fi[4])
+                c.violation("C12:entry-point-acceptance",
+                            "valid query %r is accepted by Store.QueryIds (store %s, rows %s) but %s; accepted by: %s - whether a valid filter is accepted depends on the parsing entry point" % (
+                                query, store, ibits, "; ".join(bad), ", ".join(good) or "none"),
+                            dict(rep, entry_points=dict(zip(E_NAMES, fi[4]))))
                 continue
             if ibits != sbits:
                 # the differing row on which the fewest atoms hold (exactly one, when there is such a row)
@@ -360,6 +439,21 @@ def main(argv):
                 what = "filter %r (%s atoms): truth table %s, expected %s" % (shorten(filt.decode("latin-1")), mode, itt, stt)
             c.violation(key, what, rep)
             continue
+        if stream.startswith("e") and kind == "S" and len(fi) > 5:
+            # ---- stream e: the filter is valid and ast.Parse reads it as written: every other entry point accepts it too
+            estats["cases"] += 1
+            estats["entry_point_calls"] += len(fi[4]) + 1
+            if set(fi[4]) != {"A"} or fi[5] != stt:
+                bad, good = entry_report(fi[4])
+                if fi[5] != stt:
+                    bad.append("ast.Parse, asked again after the other entry points ran, %s" % (
+                        "rejects it" if fi[5] == "E" else "panics" if fi[5] == "P" else "gives truth table %s" % fi[5]))
+                c.violation("C12:entry-point-acceptance",
+                            "valid filter %r (%s atoms) is accepted by ast.Parse with the expected truth table %s, but %s; accepted by: ast.Parse, %s - "
+                            "whether a valid skeleton is accepted depends on the parsing entry point" % (
+                                shorten(filt.decode("latin-1")), mode, stt, "; ".join(bad), ", ".join(good) or "no other"),
+                            dict(rep, entry_points=dict(zip(E_NAMES, fi[4])), truth_table_of_ast_parse_afterwards=fi[5]))
+                continue
         if kind == "W":
             ibase, mbase = fi[4], fm[7]
             if ibase != itt:
@@ -387,6 +481,8 @@ def main(argv):
     c.cov["stream_n"] = nstats
     c.cov["stream_m"] = mstats
     c.cov["stream_l"] = lstats
+    c.cov["stream_e"] = estats
+    c.cov["stream_q"] = qstats
     c.cov["distinct_nontrivial"] = len(distinct)
     c.cov["disagreements_checked"] = len(disagreements)
     try:
@@ -415,6 +511,14 @@ def main(argv):
                      "product of the values of the symbols of a family: m1 = every 3-clause sequence of one family (8 symbol patterns x 5 literal patterns x 4 and/or sequences, each form) in ALL "
                      "3 groupings, m2 = chains of 4-6 clauses plain and grouped, m3 = random skeletons whose clauses are a walk through the pool (next clause: other symbol / form / literal / family); "
                      "oracle per row as for n; a failing pure chain is compared with the other groupings of the same clauses, every failure with the same skeleton over opaque atoms. "
+                     "stream e: every skeleton over <= 3 atoms (<= 2 parenthesis pairs, <= 2 nots; a twelfth of the 4-atom ones, thorough all), a quarter re-spelled, slices as comparisons / "
+                     "constants, random chains of 4-8 leaves: ast.Parse (truth table) + zitiql.Parse / ParseWithDebug(false) / ParseWithDebug(true) / Parse again / both with the ast listener "
+                     "(acceptance) + ast.Parse again; oracle: a valid skeleton is accepted by every entry point. "
+                     "stream q: store fams -> kids -> toys -> parts; 8 atoms with sub-queries nested 2-3 levels + 10 plain ones; q0 every atom alone, q1 every skeleton over 2-3 leaves "
+                     "(<= 1 pair, <= 1 not; thorough 2/2) with a nested atom at each leaf position (oracle of n), q2 families: {plain, nested} / {not plain, nested} / {plain, not nested} / "
+                     "{nested, nested} / {(plain op' nested), plain} / three operands under and, or, and `X and Y or Z`, each in every operand order x flat / left group / right group / every operand in "
+                     "parentheses / whole in parentheses, at the top level and as the filter of the middle (kids) and the inner (toys) sub-query; oracle: every member accepted (QueryIds and all "
+                     "other entry points) and all members select the same rows. "
                      "evaluations = truth-table entries compared; non-trivial = has not/parentheses/mixed connectives/>1 atom/re-spelling; distinct by case text"
                      % (5 if c.thorough else 4))
     idx = sorted(set((0, min(3, len(cases) - 1), len(cases) // 2, len(cases) - 1)))
@@ -425,6 +529,8 @@ def main(argv):
     if st.get("m_symbol_twins_indistinguishable", 0) or st.get("m_atoms_rejected", 0):
         disagreements.append(("-", "-", "-", "stream m dataset: %s pairs of atoms that differ in their symbol only are not told apart by the rows, %s atoms rejected"
                               % (st.get("m_symbol_twins_indistinguishable"), st.get("m_atoms_rejected"))))
+    if st.get("q_atoms_constant", 0):
+        disagreements.append(("-", "-", "-", "stream q dataset: %s atoms select all rows or none" % st.get("q_atoms_constant")))
     if disagreements and not c.violations:
         case, i, m, what = disagreements[0]
         c.violation("C12:correspondence", "model and implementation differ (%s) on %d cases although the property holds on them, e.g. %s: impl %s model %s"
